@@ -48,6 +48,8 @@ def check_cell(ctx, cell, case, chan=None, chk=None, rc=None):
     ch, p, alphabet, dtype = case["channel"], case["p"], case["alphabet"], case["dtype"]
     shape = tuple(case["shape"])
     es = case.get("erasure_symbol")
+    if isinstance(es, str):
+        es = float(es)  # "nan" / "inf" / "-inf": non-finite erasure symbols are written as strings in cases (JSON)
     cell = cell or {"channel": ch, "alphabet": alphabet, "dtype": dtype, "erasure_symbol": "default" if es is None else "custom"}
     rng = np.random.RandomState(case.get("seed", ctx.seed))
     c = chan if chan is not None else make(ch, p, es)
@@ -71,16 +73,19 @@ def check_cell(ctx, cell, case, chan=None, chk=None, rc=None):
     xv = x.to(torch.float64).numpy()
     lo, hi = (-1.0, 1.0) if alphabet == "bipolar" else (0.0, 1.0)
     esym = float(-1 if es is None else es)
-    allowed = {lo, hi} | ({esym} if ch == "bec" else set())
-    vals = set(np.unique(yv).tolist())
+
+    def is_esym(a):
+        return np.isnan(a) if np.isnan(esym) else a == esym
+    allowed = {lo, hi} | ({esym} if ch == "bec" and not np.isnan(esym) else set())
+    vals = set(np.unique(yv[~np.isnan(yv)] if (ch == "bec" and np.isnan(esym)) else yv).tolist())
     ctx.check(vals <= allowed, "C12.a_alphabet", cell, rc, sorted(vals)[:6], sorted(allowed), "output leaves the input alphabet (plus erasure symbol)", chk)
     changed = yv != xv
     if ch == "z":
         ctx.check(not changed[xv == lo].any(), "C12.b_z_zero_preserved", cell, rc, int(changed[xv == lo].sum()), 0, "Z-channel turned a 0 into a 1", chk)
         ctx.check(bool(np.all(yv[changed] == lo)), "C12.b_z_direction", cell, rc, None, None, checker=chk)
     if ch == "bec":
-        ctx.check(bool(np.all(yv[changed] == esym)), "C12.c_bec_unerased_unchanged", cell, rc, None, None, "an unerased symbol differs from the input", chk)
-        erased = changed if esym in (lo, hi) else (yv == esym)
+        ctx.check(bool(np.all(is_esym(yv[changed]))), "C12.c_bec_unerased_unchanged", cell, rc, None, None, "an unerased symbol differs from the input", chk)
+        erased = changed if esym in (lo, hi) else is_esym(yv)
     if p == 0.0:
         ctx.check(not changed.any(), "C12.d_p0_identity", cell, rc, int(changed.sum()), 0, "probability 0 is not the identity", chk)
     if p == 1.0:
@@ -89,12 +94,12 @@ def check_cell(ctx, cell, case, chan=None, chk=None, rc=None):
         elif ch == "z":
             ctx.check(bool(np.all(yv == lo)), "C12.d_p1_extreme", cell, rc, None, None, "Z-channel with p=1 does not map every 1 to 0", chk)
         else:
-            ctx.check(bool(np.all(yv == esym)), "C12.d_p1_extreme", cell, rc, None, None, "BEC with p=1 does not erase everything", chk)
+            ctx.check(bool(np.all(is_esym(yv))), "C12.d_p1_extreme", cell, rc, None, None, "BEC with p=1 does not erase everything", chk)
     # statistics
     if case.get("stat") and 0 < p < 1:
         ev = changed if ch != "bec" or esym not in (lo, hi) else None
         if ch == "bec" and esym not in (lo, hi):
-            ev = (yv == esym)
+            ev = is_esym(yv)
         if ev is None:
             return
         is_one = xv == hi
@@ -167,7 +172,7 @@ def unit_exact(ctx, channel):
                 if dtype == "bool" and alphabet == "bipolar":
                     continue
                 for shape in shapes:
-                    for es in ((None, 2.0, 0.5) if channel == "bec" else (None,)):
+                    for es in ((None, 2.0, 0.5, "nan", "inf") if channel == "bec" else (None,)):
                         check_cell(ctx, None, {"channel": channel, "p": p, "alphabet": alphabet, "dtype": dtype, "shape": list(shape), "erasure_symbol": es, "seed": ctx.seed + len(shape)})
                         if len(shape) >= 2 and dtype == "float32":
                             check_cell(ctx, None, {"channel": channel, "p": p, "alphabet": alphabet, "dtype": dtype, "shape": list(shape), "erasure_symbol": es, "seed": ctx.seed + len(shape), "noncontiguous": True})
